@@ -17,18 +17,27 @@ def run(ctx):
     camp = engine_corr.EngineCampaign(ctx)
     camp.sentinel()
     rng = ctx.rng
-    for gi in range(ctx.n(25, 250)):
+    ngraphs = ctx.n(25, 250)
+    ntargeted = ctx.n(10, 60)
+    for gi in range(ngraphs + ntargeted):
         fam, nodes, edges = engine_corr.gen_graph(rng, maxn=8)
         n = len(nodes)
         if n == 0:
             continue
         workers = rng.choice([1, 2, 3, n + 1])
         scheduler = rng.choice(["default", "random", "cheap"])
+        targeted = gi >= ngraphs
+        if targeted:
+            # many independent calls that all fail, errors tolerated: a failure AFTER the interrupt must not un-stop the run
+            nodes, edges, n = list(range(8)), [], 8
+            workers, scheduler = rng.choice([1, 2]), rng.choice(["random", "cheap", "default"])
         ks = range(0, n + 1) if n <= 4 or not ctx.quick else sorted(rng.sample(range(0, n + 1), 4))
         for k in ks:
             chooser = detsched.random_chooser(rng, rng.choice([0.02, 0.2]))
             failing = rng.sample(nodes, min(len(nodes), rng.choice([0, 0, 1, 2])))
-            run_, outcome = camp.one(nodes, edges, workers, rng.choice([0, 1, None]), scheduler, failing, "Exception", chooser, "random",
+            if targeted:
+                failing = list(nodes)
+            run_, outcome = camp.one(nodes, edges, workers, None if targeted else rng.choice([0, 1, None]), scheduler, failing, "Exception", chooser, "random",
                                      interrupt_at=("join", k))
             ctx.case(("intr", tuple(nodes), tuple(edges), workers, scheduler, k, tuple(run_.sched.decisions[:100])), nontrivial=n >= 2,
                      sample={"nodes": nodes, "edges": edges, "workers": workers, "interrupt_after_starts": k, "outcome": outcome[0]} if gi == 2 and k == 1 else None)
